@@ -40,4 +40,16 @@ def diffAddErr (t : Time) (δ : Int) : Int :=
       (addLeap t δ).1.secs ≤ t.secs
   then -1000000000 else 0
 
+/-- (audit2 L4) the cross term written WITHOUT reference to what the implementation counts: −1 s when `o` is a
+leap second on an EARLIER date whose second of the day is not earlier than `x`'s (the line counts `o`'s leap second
+before `x`, the day-plus-time-of-day decomposition does not), +1 s when `o` is a leap second on a LATER date whose
+second of the day is earlier than `x`'s (the decomposition counts it, the line does not), otherwise 0.
+`crossErr` above is "implementation's count − line's count" by definition; that the two agree is a theorem
+(`Proofs.TimeClosure.crossCase_eq`, needs both times valid). -/
+def crossCase (x o : NaiveDT) : Int :=
+  if o.time.frac ≥ 1000000000 ∧ dayNumOf o.date < dayNumOf x.date ∧ x.time.secs ≤ o.time.secs
+  then -1000000000
+  else if o.time.frac ≥ 1000000000 ∧ dayNumOf x.date < dayNumOf o.date ∧ o.time.secs < x.time.secs
+  then 1000000000 else 0
+
 end Chrono.Spec
